@@ -81,6 +81,15 @@ class C18:
                 built.append({"kind": rng.choice(["Text", "Binary", "Ping", "Pong", "Close"]),
                               "len": LENS[(i * 3 + j) % len(LENS)] if rng.random() < 0.7 else rng.randrange(0, 70001),
                               "mask": rng.randrange(2)})
+            # (drawn from a second stream so that the cases of earlier versions of this generator stay what they were)
+            rng2 = random.Random(h64(rs, "content"))
+            for f in frames:
+                if "of" not in f and f["op"] in ("text", "binary") and rng2.random() < 0.2:
+                    # payloads that begin with bytes a decoder may be tempted to strip or to treat specially: a byte
+                    # order mark, NUL characters, line separators, leading zero bytes
+                    f["lead"] = rng2.choice(LEADS_TEXT if f["op"] == "text" else LEADS_BIN)
+            for b in built:
+                b["ba"] = rng2.randrange(2)         # payload handed over as a bytearray (as the library reader returns it)
             case = {"seed": rs, "frames": frames, "mode": mode, "cuts": None, "built": built}
             if rng.random() < 0.3:
                 # a second connection to the same factory, before or interleaved with the first; it may end in the middle of a frame
@@ -99,6 +108,12 @@ class C18:
             a, b = f["slice"]
             return C18.payload(f["of"])[a:b]
         n = f["len"]
+        if f.get("lead"):
+            lead = f["lead"].encode("utf-8") if f["op"] == "text" else bytes.fromhex(f["lead"])
+            if n >= len(lead):
+                g = dict(f, len=n - len(lead))
+                g.pop("lead")
+                return lead + C18.payload(g)
         if f["op"] == "text":
             if f["fill"] % 3 == 0 and n >= 4:
                 # valid UTF-8 with 2-, 3- and 4-byte characters, padded with ASCII to exactly n bytes
@@ -324,10 +339,10 @@ class C18:
             payload = body.encode("utf-8")
         elif kind == "Binary":
             payload = (bytes(range(256)) * (n // 256 + 1))[:n]
-            frame = F.Binary(payload)
+            frame = F.Binary(bytearray(payload) if b.get("ba") else payload)
         elif kind in ("Ping", "Pong"):
             payload = (b"p" * n)
-            frame = getattr(F, kind)(payload)
+            frame = getattr(F, kind)(bytearray(payload) if b.get("ba") else payload)
         else:
             payload = struct_pack_status(1000) + b"c" * n
             frame = F.Close(1000, b"c" * n)
@@ -360,6 +375,19 @@ class C18:
             return {"kind": "server_frame_not_rfc6455", "key": "built:len=%s" % lk,
                     "detail": {"kind": kind, "len": len(payload), "mask": b["mask"], "got_head": s.buf[:14].hex(), "ref_head": ref[:14].hex(),
                                "got_len": len(s.buf), "ref_len": len(ref)}}
+        # the encoding is a function of the frame: writing must not change the frame, and a second write of the same
+        # object gives the same bytes
+        if bytes(frame.payload) != bytes(payload):
+            return {"kind": "frame_changed_by_writing_it", "key": "%s:mask=%d" % (kind, b["mask"]),
+                    "detail": {"len": len(payload), "bytearray": b.get("ba", 0)}}
+        s1 = Sock()
+        try:
+            http_mod.writeFrameFactory(s1)(frame)
+        except Exception as e:      # noqa
+            return {"kind": "writeFrame_raised", "key": "%s:%s:second" % (kind, lk), "detail": str(e)[:100]}
+        if s1.buf != ref:
+            return {"kind": "server_frame_not_rfc6455", "key": "built-second-write:len=%s" % lk,
+                    "detail": {"kind": kind, "len": len(payload), "mask": b["mask"], "got_head": s1.buf[:14].hex(), "ref_head": ref[:14].hex()}}
         # parse the reference bytes back with the library parser
         s2 = Sock()
         s2.buf = ref
@@ -370,6 +398,18 @@ class C18:
         if bytes(back.payload) != bytes(payload) or back.flags.opcode.value != opc or back.flags.fin != 1 or back.flags.mask != (1 if key else 0) or s2.buf:
             return {"kind": "frame_does_not_parse_back", "key": "len=%s" % lk,
                     "detail": {"kind": kind, "len": len(payload), "mask": b["mask"], "parsed_len": len(back.payload), "leftover": len(s2.buf)}}
+        # ... and the frame the library parser returned (its payload is a bytearray) encodes to the same bytes again
+        s3 = Sock()
+        try:
+            http_mod.writeFrameFactory(s3)(back)
+            again = s3.buf
+            s3.buf = b""
+            http_mod.writeFrameFactory(s3)(back)
+        except Exception as e:      # noqa
+            return {"kind": "writeFrame_raised", "key": "%s:%s:parsed" % (kind, lk), "detail": str(e)[:100]}
+        if again != ref or s3.buf != ref:
+            return {"kind": "parsed_frame_does_not_encode_back", "key": "len=%s:mask=%d" % (lk, b["mask"]),
+                    "detail": {"kind": kind, "len": len(payload), "first_ok": again == ref, "second_ok": s3.buf == ref}}
         return None
 
     # ------------------------------------------------------------------ shrinking
@@ -382,6 +422,10 @@ class C18:
     def shrinkable(self, case):
         return [("built", lambda c: c["built"], lambda c, v: c.__setitem__("built", v)),
                 ("cuts", lambda c: c["cuts"] or [], lambda c, v: c.__setitem__("cuts", v))]
+
+
+LEADS_TEXT = ["\ufeff", "\ufeff\ufeff", "\u0000", "\u2028", "\ufffd", " \t", "\r\n", "\U0001F600"]
+LEADS_BIN = ["000000", "00", "efbbbf", "ff", "8100"]
 
 
 def lenkey(n):
